@@ -613,9 +613,9 @@ package kcp
 //@ func fecEncoder.encodeOOB
 //@   requires enc.wfP() && enc.payloadOffset + 2 <= len(b)
 //@   modifies b[..]
-//@   ensures @C19 le32(b, enc.headerOffset) == 4294967295 && le16(b, enc.headerOffset + 4) == 243
-//@   ensures @C19 le16(b, enc.payloadOffset) == uint16(len(b) - enc.payloadOffset)
-//@   ensures @C19 forall j int :: j < enc.headerOffset || j >= enc.payloadOffset + 2 ==> b[j] == old(b[j])
+//@   ensures @C09 @C19 le32(b, enc.headerOffset) == 4294967295 && le16(b, enc.headerOffset + 4) == 243
+//@   ensures @C09 @C19 le16(b, enc.payloadOffset) == uint16(len(b) - enc.payloadOffset)
+//@   ensures @C09 @C19 forall j int :: j < enc.headerOffset || j >= enc.payloadOffset + 2 ==> b[j] == old(b[j])
 //
 //@ func fecEncoder.encode
 //@   requires enc.wf() && enc.payloadOffset + 2 <= len(b) && len(b) <= 1500
